@@ -83,9 +83,9 @@ Definition closed2 (R : list st2) : bool :=
 Lemma label2_covered l s : sm2_step s l = s \/ In l all_labels2.
 Proof.
   destruct l as [|d|d|d| | | |]; try (right; cbn; tauto).
-  - destruct d as [|[|[|d]]]; try (right; cbn; tauto). left.
+  - destruct d as [|[|[|[|[|[|d]]]]]]; try (right; cbn; tauto). left.
     unfold sm2_step, sm2_step_gen. destruct (t_closed s); [reflexivity|].
-    replace (Nat.ltb (S (S (S d))) 3) with false by reflexivity.
+    replace (Nat.ltb (S (S (S (S (S (S d)))))) 6) with false by reflexivity.
     rewrite !andb_false_r. reflexivity.
   - destruct d as [|[|d]]; try (right; cbn; tauto). left.
     unfold sm2_step, sm2_step_gen. destruct (t_closed s); reflexivity.
@@ -166,10 +166,10 @@ Definition open_completes (s : st2) : bool :=
       let s' := drain2 24 s in
       if existsb (is_disc d) (t_ab s ++ t_ba s) || dlc_is (slot (t_b s) d) DDisconnecting
       then true       (* that very link is already being closed again *)
-      else if accepted d
+      else if accepted d && size_ok d
       then dlc_is (slot (t_a s') d) DConnected && dlc_is (slot (t_b s') d) DConnected
            && is_mst (e_mux (t_a s')) MConnected
-      else match slot (t_a s') d, slot (t_b s') d with None, None => is_mst (e_mux (t_a s')) MConnected | _, _ => false end
+      else match slot (t_a s') (chan_of d), slot (t_b s') (chan_of d) with None, None => is_mst (e_mux (t_a s')) MConnected | _, _ => false end
   | None => true
   end.
 
@@ -208,4 +208,18 @@ Lemma responder_muxdisc_refuted :
   let s := sm2_runx sm2_init d20j_witness in
   quiescent2 s = true /\ agree2 s = false /\
   e_pend (t_a s) = Some 0 /\ slot (t_a s) 0 = None /\ slot (t_b s) 0 = Some DConnecting.
+Proof. vm_compute. repeat split. Qed.
+
+(* outside the property's range: a responder CONFIGURED with a maximum frame size outside
+   23..32767 (Server.listen does not validate it) answers the PN command with that size; the
+   initiator (fix D17i) treats the response as a refusal while the responder has already
+   created its DLC, which stays in CONNECTING *)
+Definition misconfigured_witness : list lbl2x :=
+  [X L_Connect; X L_DeliverAB; X L_DeliverBA; X_OpenRB 0;
+   X L_DeliverAB; X L_DeliverBA; X L_DeliverAB; X L_DeliverBA].
+
+Lemma responder_misconfigured_refuted :
+  let s := sm2_runx sm2_init misconfigured_witness in
+  quiescent2 s = true /\ agree2 s = false /\
+  e_pend (t_a s) = None /\ slot (t_a s) 0 = None /\ slot (t_b s) 0 = Some DConnecting.
 Proof. vm_compute. repeat split. Qed.
